@@ -405,7 +405,10 @@ class C13(PropCheck):
             o = GMDistribution.rvs(means, cov, w, size=case['size'], prior_logpdf=prior_logpdf,
                                    random_state=np.random.RandomState(case['seed']))
         except Stop:
+            self.bump('rvs gave up after 400 trials (excluded: out of fuel)')
             return dict(out=None, batches=batches[:3], gave_up=True)
+        except Exception as e:      # a crash on a valid request is a failure of the property, with a concrete replay
+            return dict(out=None, batches=batches[:3], crashed='%s: %s' % (type(e).__name__, str(e)[:200]))
         o = np.asarray(o)
         out = dict(out=[[float(v) for v in np.atleast_1d(row)] for row in o], shape=list(o.shape), batches=batches)
         if box is None:
@@ -490,6 +493,8 @@ class C13(PropCheck):
                     bad.append(('gm_single_component', 'one component, d=%d, %s cov: rvs(size=%d) shape %r, expected %r'
                                 % (case['d'], name, case['size'], out['rvs_shape_' + name], [case['size'], case['d']])))
         elif k == 'rvs':
+            if out.get('crashed'):
+                bad.append(('rvs_completes', 'rvs(size=%d) raised %s' % (case['size'], out['crashed'])))
             if out['out'] is not None:
                 want = [case['size']] + ([] if case['d'] == 1 else [case['d']])
                 if out['shape'] != want:
